@@ -31,6 +31,7 @@ package keeper
 //@   requires #count-covers-this-vault: vf0 ==> k.vault.GetLengthOfVault(ctx) >= 1
 //@   letpost gone = !k.vault.GetVault(ctx, vaultID).1
 //@   ensures [C09] #c09-only-unsafe: result == nil && vf0 && gone ==> cr0.1 == nil && cr0.0 < ep.MinCr
+//@   ensures [C09] #c09-unsafe-is-seized: result == nil && vf0 && cr0.1 == nil && cr0.0 < ep.MinCr ==> gone
 //@   ensures [C09] #c09-error-keeps-vault-record: vf0 && !gone ==> k.vault.GetVault(ctx, vaultID).0.AmountIn == v0.AmountIn && k.vault.GetVault(ctx, vaultID).0.AmountOut == v0.AmountOut && k.vault.GetVault(ctx, vaultID).0.Owner == v0.Owner
 //@   fails_if [C14] #c14-breaker: vf0 && k.esm.GetKillSwitchData(ctx, v0.AppId).0.BreakerEnable
 //@   fails_if [C14] #c14-esm: vf0 && k.esm.GetESMStatus(ctx, v0.AppId).1 && k.esm.GetESMStatus(ctx, v0.AppId).0.Status
@@ -38,7 +39,7 @@ package keeper
 //@   fails_if [C14] #c14-price-unavailable: vf0 && cr0.1 != nil
 //@   ensures [C01] #c01-collateral-handed-over: result == nil && vf0 && gone ==> bal(modaddr("vaultV1"), din) == old(bal(modaddr("vaultV1"), din)) - v0.AmountIn && bal(modaddr("auctionsV2"), din) == old(bal(modaddr("auctionsV2"), din)) + v0.AmountIn
 //@   ensures [C01] #c01-count: result == nil && vf0 ==> k.vault.GetLengthOfVault(ctx) == old(k.vault.GetLengthOfVault(ctx)) - ite(gone, 1, 0)
-//@   ensures [C09] #c09-one-locked-vault: result == nil && vf0 && gone ==> k.GetLockedVaultID(ctx) == old(k.GetLockedVaultID(ctx)) + 1
+//@   ensures slow [C09] #c09-one-locked-vault: result == nil && vf0 && gone ==> k.GetLockedVaultID(ctx) == old(k.GetLockedVaultID(ctx)) + 1
 //@   ensures [C01] #c01-frame-vaults: forall j :: j != vaultID ==> k.vault.GetVault(ctx, j) == old(k.vault.GetVault(ctx, j))
 
 // The borrow sweep of the begin-blocker (C15, C09): it never panics, its only unprotected write is its own offset record
